@@ -4,9 +4,9 @@
     every cell is [val] of the entities at its coordinates, every label array present is the image of its axis'
     entities under the labelling [lbl] of its field; [no_loss s s']: no label array present in [s] is missing in [s'].
     Definitions named [old_...] model FORMER code of pybrops (repaired since) and occur only in regression witnesses
-    (and in [C03_zero_dim_insert_refuted]: a 0-d array index still takes that path).
+    ([old_op_insert] is also numpy.insert as it is, which the source's insert_<axis> calls after its scalar-index wrap).
     [val] and [lbl] are arbitrary (so duplicated labels are covered), the entity type is arbitrary. *)
-From PV Require Import Lib.Common Model.C03_LMat Proofs.C03_LMat Gen.C03_Dispatch Gen.C03_MetaReset Proofs.C03_Tables Gen.C03_Kernel Proofs.C03_Kernel Proofs.C03_Session Proofs.C03_IndexForm.
+From PV Require Import Lib.Common Model.C03_LMat Model.C03_IndexForm Proofs.C03_LMat Gen.C03_Dispatch Gen.C03_MetaReset Proofs.C03_Tables Gen.C03_Kernel Proofs.C03_Kernel Proofs.C03_Session Proofs.C03_IndexForm.
 Local Open Scope Z_scope.
 
 (** every class descriptor of the model is well formed (axes in range, kinds do not share array axes) *)
@@ -137,16 +137,25 @@ Example C03_delete_scalar_satisfiable :
              op_remove cDenseTaxaVariantMatrix w1_s 1 (OList [-1]) = OK s'.
 Proof. exact delete_scalar_witness. Qed.
 
-(** finding C03-zero-dim-index-insert-moveaxis (current code): a 0-d array index passes the guard
-    [isinstance(obj, (int, numpy.integer))] unwrapped, numpy.insert takes its scalar path ([old_op_insert] on [OInt]): on an
-    inner array axis the block arrives transposed - same shape, same label arrays, other cells than with the index list *)
-Theorem C03_zero_dim_insert_refuted :
-  exists s1 s2, op_insert cDenseTaxaVariantMatrix w1_s 1 (OList [1]) w1_v = OK s1 /\
-                old_op_insert cDenseTaxaVariantMatrix w1_s 1 (OInt 1) w1_v = OK s2 /\
+(** regression witness of the repaired finding C03-zero-dim-index-insert-moveaxis.  The FORMER test of the scalar-index wrap,
+    [isinstance(obj, (int, numpy.integer))] ([old_wrap]), let a 0-d integer array ([FArr 0 true], shipped as [OInt]) through
+    to numpy.insert, which took its scalar path: on an inner array axis the block arrived transposed - same shape, same
+    label arrays, other cells than with the index list [1].  The test of the current source (generated:
+    [k_vrnt_wrap_insert]) wraps it, and the insertion is the one of the index list. *)
+Theorem C03_old_zero_dim_insert_refuted :
+  ships (FArr 0 true) (OInt 1) = true /\
+  on_form k_vrnt_wrap_insert (FArr 0 true) (OInt 1) = Some (OList [1]) /\ on_form old_wrap (FArr 0 true) (OInt 1) = Some (OInt 1) /\
+  exists s1 s2, src_insert k_vrnt_wrap_insert cDenseTaxaVariantMatrix w1_s 1 (FArr 0 true) (OInt 1) w1_v = OK s1 /\
+                op_insert cDenseTaxaVariantMatrix w1_s 1 (OList [1]) w1_v = OK s1 /\
+                src_insert old_wrap cDenseTaxaVariantMatrix w1_s 1 (FArr 0 true) (OInt 1) w1_v = OK s2 /\
                 shape s1 = shape s2 /\ axes s1 = axes s2 /\ data s1 <> data s2 /\
                 data s1 = T2 [[0; 5; 6; 1; 2]; [10; 15; 16; 11; 12]] /\ data s2 = T2 [[0; 5; 15; 1; 2]; [10; 6; 16; 11; 12]].
-Proof. exact zero_dim_insert_witness. Qed.
-Print Assumptions C03_zero_dim_insert_refuted.
+Proof. exact old_zero_dim_insert_witness. Qed.
+Print Assumptions C03_old_zero_dim_insert_refuted.
+(** the former test was wrong on that form only (so the repair widens it by exactly the 0-d integer array) *)
+Theorem C03_old_wrap_other_forms : forall f o, ships f o = true -> f <> FArr 0 true -> on_form old_wrap f o = Some (wrap_scalar o).
+Proof. exact old_wrap_other_forms. Qed.
+Print Assumptions C03_old_wrap_other_forms.
 
 (** insert on a square-taxa matrix: one array axis only, the result is 3 x 2 with 3 taxa labels *)
 Theorem C03_square_insert_refuted :
@@ -388,14 +397,20 @@ Theorem C03_kernel_label_precedence : forall c k v j,
 Proof. exact kernel_eff_lab. Qed.
 Print Assumptions C03_kernel_label_precedence.
 
-(** insert/incorp of the source = wrap a scalar index into a one-element list (generated), then numpy.insert: equal to the
-    model's operation on the unwrapped argument, for every class, axis, index and operand *)
-Theorem C03_kernel_insert_scalar : forall c s k o v,
-  op_insert c s k (k_taxa_wrap_insert o) v = op_insert c s k o v /\ op_insert c s k (k_vrnt_wrap_insert o) v = op_insert c s k o v /\
-  op_insert c s k (k_trait_wrap_insert o) v = op_insert c s k o v /\ op_incorp c s k (k_taxa_wrap_incorp o) v = op_incorp c s k o v /\
-  op_incorp c s k (k_vrnt_wrap_incorp o) v = op_incorp c s k o v /\ op_incorp c s k (k_trait_wrap_incorp o) v = op_incorp c s k o v.
+(** insert/incorp of the source = wrap the index into a one-element list if the generated test fires on its FORM (Python int,
+    numpy integer scalar, ndarray of some ndim and dtype, anything else), then numpy.insert as it is ([old_op_insert]: a
+    scalar that arrives there moves axis 0 of the block): equal to the model's operation on the index, for every class,
+    axis, operand and every form in which an index value can arrive - a 0-d integer array included.
+    (Formerly proved for the test `isinstance(obj, (int, numpy.integer))` with the 0-d array left out; now at full strength.) *)
+Theorem C03_kernel_insert_scalar : forall c s k f o v, ships f o = true ->
+  src_insert k_taxa_wrap_insert c s k f o v = op_insert c s k o v /\ src_insert k_vrnt_wrap_insert c s k f o v = op_insert c s k o v /\
+  src_insert k_trait_wrap_insert c s k f o v = op_insert c s k o v /\ src_incorp k_taxa_wrap_incorp c s k f o v = op_incorp c s k o v /\
+  src_incorp k_vrnt_wrap_incorp c s k f o v = op_incorp c s k o v /\ src_incorp k_trait_wrap_incorp c s k f o v = op_incorp c s k o v.
 Proof. exact kernel_insert_scalar. Qed.
 Print Assumptions C03_kernel_insert_scalar.
+(** the hypothesis is met: every bare integer index has the three scalar forms (and they are all shipped as [OInt]) *)
+Example C03_scalar_forms_satisfiable : forall i, ships FPyInt (OInt i) = true /\ ships FNpInt (OInt i) = true /\ ships (FArr 0 true) (OInt i) = true.
+Proof. exact ships_scalar_forms. Qed.
 
 (** the masked genotyping protocols, stated about the generated membership test `(masknz >= stix) & (masknz < spix)`,
     `keep = len > 0` and `stix = spix - len` (both protocol classes): the rebuilt metadata are a true partition ... *)
